@@ -241,6 +241,26 @@ func TestC14(t *testing.T) {
 		}
 	}
 	r.Exhaustive(fmt.Sprintf("all strings up to length %d over {a,CR,LF,':',' '} through every construction route", maxLen))
+	// a single line break at every offset 0..300 and around the usual block sizes (a scanner that
+	// works in blocks is wrong at exactly one offset)
+	offs := []int{}
+	for o := 0; o <= 300; o++ {
+		offs = append(offs, o)
+	}
+	for _, c := range []int{512, 1024, 2048, 4096, 8192} {
+		for d := -2; d <= 2; d++ {
+			offs = append(offs, c+d)
+		}
+	}
+	for i, o := range offs {
+		if !r.Mine("P", i) {
+			continue
+		}
+		for k, nl := range []string{"\n", "\r", "\r\n"} {
+			c14String(r, fw.Key("P", i*3+k), strings.Repeat("v", o)+nl+"data: injected")
+			c14String(r, fw.Key("P", i*3+k), strings.Repeat("v", o)+nl)
+		}
+	}
 	for i, s := range hostilePool {
 		if r.Mine("B", i) && len(s) < 10000 {
 			c14String(r, fw.Key("B", i), s)
@@ -478,6 +498,36 @@ func TestC15(t *testing.T) {
 			key := fw.Key("S", i)
 			r.Begin(key, "shape")
 			c15Message(r, key, f(), true)
+		}
+	}
+	// every line length 0..300 and around the usual buffer sizes, as data and as comment line
+	lens := []int{}
+	for l := 0; l <= 300; l++ {
+		lens = append(lens, l)
+	}
+	for _, c := range []int{512, 1024, 4096, 8192, 65536} {
+		for d := -8; d <= 2; d++ {
+			lens = append(lens, c+d)
+		}
+	}
+	for i, l := range lens {
+		if !r.Mine("L", i) {
+			continue
+		}
+		key := fw.Key("L", i)
+		r.Begin(key, fmt.Sprintf("line length %d", l))
+		for _, comment := range []bool{false, true} {
+			b := &builtMsg{Msg: &sse.Message{}, Model: &ref.Msg{}, Ops: []string{fmt.Sprintf("one line of %d bytes (comment=%v) + tail", l, comment)}}
+			payload := strings.Repeat("y", l)
+			if comment {
+				b.Msg.AppendComment(payload)
+			} else {
+				b.Msg.AppendData(payload)
+			}
+			b.Model.Append(comment, payload)
+			b.Msg.AppendData("tail")
+			b.Model.Append(false, "tail")
+			c15Message(r, key, b, false)
 		}
 	}
 	n := r.N(6000, 60000)
